@@ -478,5 +478,8 @@ func (p *mPara) criticalWidths(maxCount int) []int {
 		// keep the smallest ones and the largest (a complete set for short paragraphs; reported otherwise)
 		ws = append(ws[:maxCount-1], ws[len(ws)-1])
 	}
+	// "all maxWidth values from 0 upward": two widths beyond the range of 26.6 fixed point (2^25 px, and 2^26 px plus a
+	// small critical width, which is that small width again if the limit is ever converted to fixed.Int26_6)
+	ws = append(ws, 1<<25, 1<<26+ws[len(ws)/2])
 	return ws
 }
